@@ -276,4 +276,103 @@ theorem mutAssignType_lower (ms : List Ty) (A : Ty) (wl : wfL ms = true) (h : mu
   obtain ⟨wA, _, hmem⟩ := foldAssign_lower ms .any A wl rfl h
   exact ⟨wA, hmem⟩
 
+/-! ### slices -/
+
+theorem mem_asTypeLU : ∀ (vs : List Val) (ty : Ty), ty ∈ asTypeL vs → ∃ v ∈ vs, v.asType = ty
+  | [], ty, h => by simp [asTypeL] at h
+  | v :: vs, ty, h => by
+    simp only [asTypeL, List.mem_cons] at h
+    rcases h with rfl | h
+    · exact ⟨v, by simp, rfl⟩
+    · obtain ⟨w, hw, e⟩ := mem_asTypeLU vs ty h; exact ⟨w, by simp [hw], e⟩
+
+theorem slice_value (lp : Bool) (ret : Option Ty) (x : Val) (tc : Ty) (vs ve vp : Option Val) (i1 i2 i3 : Option Int) (σ : St)
+    (hst : StoreOk S σ) (e1 : optIdx vs = .ok i1) (e2 : optIdx ve = .ok i2) (e3 : optIdx vp = .ok i3)
+    (hx : VT S tc x) (wtc : wf tc = true) (hk : (∃ e, tc = .arr e) ∨ tc = .str) :
+    OutP lp ret S (fun S' v => VT S' tc v) (liftE (sliceVal x vs ve vp) σ) := by
+  have cx := vt_contents hx wtc
+  rcases hk with ⟨e, rfl⟩ | rfl
+  · obtain ⟨t1, xs, rfl⟩ := arr_of_hasTy cx
+    have hsv : sliceVal (.arr t1 xs) vs ve vp = .ok (Val.mkArray (Seq.slice xs i1 i2 i3)) := by
+      simp [sliceVal, e1, e2, e3, bind, Except.bind]
+    rw [hsv]
+    apply outP_liftE2 _ _ _ _ _ _ hst
+    · intro v hv
+      cases hv
+      obtain ⟨tx, gx⟩ := hx
+      simp only [asType, C01.sub_arr] at tx
+      cases gx with
+      | arr _ _ w1 hs1 hg1 =>
+      have hsel : ∀ z ∈ Seq.slice xs i1 i2 i3, z ∈ xs := slice_mem xs i1 i2 i3
+      have gsel : ∀ z ∈ Seq.slice xs i1 i2 i3, Good S z := fun z hz => hg1 z (hsel z hz)
+      have we : wf e = true := by simpa [wf] using wtc
+      refine ⟨?_, good_mkArray _ gsel⟩
+      simp only [Val.mkArray, asType, C01.sub_arr]
+      have hw := wfL_asTypeLG _ gsel
+      refine sub_trans _ t1 e (wf_concatL _ hw) w1 we (concatL_least _ t1 hw ?_) tx
+      intro t ht'
+      obtain ⟨z, hz, rfl⟩ := mem_asTypeLU _ t ht'
+      exact hs1 z (hsel z hz)
+    · intro sg hsg; cases hsg
+  · obtain ⟨str, rfl⟩ : ∃ str, x = .str str := by cases x <;> simp [hasTy] at cx; exact ⟨_, rfl⟩
+    have hsv : sliceVal (.str str) vs ve vp = .ok (.str (String.ofList (Seq.slice str.toList i1 i2 i3))) := by
+      simp [sliceVal, e1, e2, e3, bind, Except.bind]
+    rw [hsv]
+    apply outP_liftE2 _ _ _ _ _ _ hst
+    · intro v hv; cases hv; exact ⟨by simp [asType, sub, eqv], Good.str _⟩
+    · intro sg hsg; cases hsg
+
+/-- a member of a well-formed union is neither a union nor `!` -/
+theorem member_shape (ms : List Ty) (m : Ty) (hm : m ∈ ms) (w : wf (.multi ms) = true) : isMulti m = false ∧ isNever m = false := by
+  have hok : membersOk ms = true := by simp only [wf, Bool.and_eq_true] at w; exact w.1.2
+  have shape : ∀ (l : List Ty), membersOk l = true → m ∈ l → isMulti m = false ∧ isNever m = false := by
+    intro l
+    induction l with
+    | nil => intro _ h; cases h
+    | cons a as ih =>
+      intro hmo hin
+      rcases List.mem_cons.mp hin with rfl | hin
+      · cases m <;> simp [membersOk, isMulti, isNever] at hmo ⊢
+      · have : membersOk as = true := by cases a <;> simp [membersOk] at hmo ⊢ <;> exact hmo
+        exact ih this hin
+  exact shape ms hok hm
+
+/-- a member of a well-formed union lies below the union -/
+theorem member_sub_multi (ms : List Ty) (m : Ty) (hm : m ∈ ms) (w : wf (.multi ms) = true) : sub m (.multi ms) = true := by
+  have wl := wfL_of_multi w
+  have wm := wfL_memU wl hm
+  obtain ⟨s1, s2⟩ := member_shape ms m hm w
+  rw [sub_multi_right _ ms s1 s2]
+  have : ∀ (l : List Ty), m ∈ l → anyMatch m l = true := by
+    intro l
+    induction l with
+    | nil => intro h; cases h
+    | cons a as ih =>
+      intro hin
+      rw [anyMatch]
+      simp only [Bool.or_eq_true]
+      rcases List.mem_cons.mp hin with rfl | hin
+      · exact Or.inl (sub_refl _ wm)
+      · exact Or.inr (ih hin)
+  exact this ms hm
+
+/-- a member of a union that can be indexed is an array type or `string` -/
+theorem canBeIndexed_member (ms : List Ty) (m : Ty) (hm : m ∈ ms) (w : wf (.multi ms) = true) (h : canBeIndexed (.multi ms) = true) :
+    (∃ e, m = .arr e) ∨ m = .str := by
+  obtain ⟨s1, s2⟩ := member_shape ms m hm w
+  simp only [canBeIndexed, sub_multi_left] at h
+  have : ∀ (l : List Ty), allMatch l (.multi [.str, .arr .any]) = true → m ∈ l → sub m (.multi [.str, .arr .any]) = true := by
+    intro l
+    induction l with
+    | nil => intro _ h; cases h
+    | cons a as ih =>
+      intro hal hin
+      rw [allMatch] at hal
+      simp only [Bool.and_eq_true] at hal
+      rcases List.mem_cons.mp hin with rfl | hin
+      · exact hal.1
+      · exact ih hal.2 hin
+  have hs := this ms h hm
+  cases m <;> simp [sub, anyMatch, eqv, allMatch, isMulti, isNever] at hs s1 s2 ⊢
+
 end Ssl.CS
